@@ -1094,7 +1094,8 @@ decl(struct scope *s, struct func *f)
 				if (d->defined)
 					error(&tok.loc, "function '%s' redefined", name);
 				/* re-open scope from function declarator */
-				assert(funcscope);
+				if (!funcscope)
+					error(&tok.loc, "function definition must have a function declarator");
 				s = funcscope;
 				f = mkfunc(d, name, t, s);
 				stmt(f, s);
